@@ -100,7 +100,8 @@ CHECKS = {
     'C01': (
         'Rocq proof: properties of the reference denotation + a symbol-table validator proved sound for all graphs and tables '
         '(translation validation of the real flow.compile output on every generated segment) + executable model of the '
-        'compiler algorithm tied symbol-for-symbol to the real table by the correspondence run',
+        'compiler algorithm, proved correct for all segments without persistent groups under every visiting order and tied '
+        'symbol-for-symbol to the real table by the correspondence run',
         'PARTIAL. Model/C01.v is the reference denotation of a segment over free terms (every actor an uninterpreted symbol): '
         'argument order, per-port getters, state of the sibling trained in the same run, previous states loaded and new states '
         'committed per persistent group at its list position. Proved about it: each task evaluated exactly once and '
@@ -114,10 +115,17 @@ CHECKS = {
         'ports, fork groups, arbitrary train/label sources, every connection order, any persistent subset/order) the real '
         'flow.compile output must (1) equal the compiler model output symbol for symbol under the recorded traversal order, '
         '(2) be accepted by the proved validator, (3) evaluate in Coq to the sink term the independent Python interpreter '
-        'obtained, and (4) match the denotation in sink term, commit list, loads and one call per task. Not proved: that the '
-        'compiler MODEL is accepted by the validator for all graphs and traversal orders (checked per case by vm_compute).',
-        BASE_NOTE + 'The all-inputs guarantee for the compiler rests on validator soundness (proved) + acceptance of each emitted '
-        'table (computed per case), not on a proof about the compiler algorithm.',
+        'obtained, and (4) match the denotation in sink term, commit list, loads and one call per task; every generated '
+        'segment is also checked to satisfy the hypothesis wfb of the correctness theorem. (d) COMPILER CORRECTNESS of the '
+        'model, proved (C01_compile_correct_partial, C01_compile_dataflow_partial; 1 900 lines: Proofs/C01Prim, C01Blocks, '
+        'C01Inv, C01Step, C01Emit, C01Canon, C01Main): for every well-formed segment without persistent groups and EVERY '
+        'visiting order (any permutation of the nodes) Table.add never hits an assertion, Linkage.leaves finds a leaf, '
+        '__iter__ resolves every argument, and the emitted table is accepted by the validator, hence evaluates at every node '
+        'to the value of direct graph evaluation. Not proved: the same with persistent groups (loader re-keying, dumper / '
+        'committer wiring) - there acceptance is computed per case by vm_compute.',
+        BASE_NOTE + 'With persistent groups the all-inputs guarantee rests on validator soundness (proved) + acceptance of each '
+        'emitted table (computed per case); without them it is a theorem about the compiler model, which is tied to the real '
+        'compiler by symbol-for-symbol comparison on every generated segment.',
         'DESIGN.md section 5 C01 and section 10.9',
     ),
     'C02': (
